@@ -82,7 +82,59 @@ func c17Serve(r *Run, l *Local, mw *cors.Middleware, cfg *cors.Config, debug boo
 		}
 		w.inner = &countingHandler{body: "ok"}
 		wrappedOnce(mw).ServeHTTP(w, req)
+		// the same exchange behind an outer layer that left odd (but legal for an http.Header) entries in the response
+		// header map: keys with zero values, nil slices, empty strings (lesson of seeded change C17-p)
+		w = newRW()
+		for k, v := range oddPresets(reqHash(q)) {
+			w.h[k] = v
+		}
+		w.inner = &countingHandler{body: "ok"}
+		wrappedOnce(mw).ServeHTTP(w, q.httpReq())
 	})
+}
+
+// reqHash: a hash of what identifies a request (method and the CORS request headers).
+func reqHash(q Req) uint64 {
+	var sb strings.Builder
+	sb.WriteString(q.Method)
+	for _, k := range []string{hOrigin, hACRM, hACRH, hACRPN} {
+		for _, v := range q.Header[k] {
+			if len(v) < 512 {
+				sb.WriteString(v)
+			}
+			sb.WriteByte(0)
+		}
+	}
+	return hashString(sb.String() + "#preset")
+}
+
+// oddPresets: response-header entries that a ResponseWriter's map may legitimately hold before the middleware runs.
+func oddPresets(x uint64) http.Header {
+	corsKeys := []string{"Vary", "Access-Control-Allow-Origin", "Access-Control-Allow-Credentials", "Access-Control-Allow-Methods", "Access-Control-Allow-Headers", "Access-Control-Max-Age", "Access-Control-Expose-Headers", "Access-Control-Allow-Private-Network"}
+	h := http.Header{}
+	switch x % 7 {
+	case 0:
+		h["Vary"] = []string{}
+	case 1:
+		h["Vary"] = nil
+	case 2:
+		for _, k := range corsKeys {
+			h[k] = []string{}
+		}
+	case 3:
+		h["Vary"] = []string{""}
+	case 4:
+		for _, k := range corsKeys {
+			h[k] = nil
+		}
+	case 5:
+		h["Vary"] = make([]string, 0, 8)
+		h["Access-Control-Allow-Origin"] = []string{"", ""}
+	default:
+		h["Vary"] = []string{"", "", ""}
+		h["vary"] = []string{}
+	}
+	return h
 }
 
 // byteSweep: every byte value at every syntactic position of a seed string.
